@@ -101,6 +101,18 @@ pub enum Path {
     /// panics half-way; the panic is caught and the whole piece is then fed again by `add`.
     /// Whatever was absorbed before the failed call must still be there.
     ExtendPanicsThenRetry,
+    /// fault: the piece is fed by `extend` (by value) from the destructor of a guard while the
+    /// thread is unwinding from an unrelated panic (a buffer flushing its pending samples)
+    ExtendDuringUnwind,
+}
+
+/// guard of Path::ExtendDuringUnwind
+pub struct FlushOnDrop<'a, E: Est>(pub &'a mut E, pub &'a [E::Item]);
+
+impl<'a, E: Est> Drop for FlushOnDrop<'a, E> {
+    fn drop(&mut self) {
+        self.0.extend_val(self.1);
+    }
 }
 
 pub trait Item: Copy + Debug + PartialEq + Send + Sync + 'static {
@@ -200,6 +212,18 @@ pub trait Est: Clone + Debug + Serialize + DeserializeOwned + Send + 'static {
                     self.push(x);
                 }
             }
+            Path::ExtendDuringUnwind => {
+                if Self::HAS_EXTEND {
+                    let _ = std::panic::catch_unwind(std::panic::AssertUnwindSafe(|| {
+                        let _flush = FlushOnDrop(self, items);
+                        panic!("harness: unrelated panic while samples are pending");
+                    }));
+                } else {
+                    for &x in items {
+                        self.push(x);
+                    }
+                }
+            }
             Path::DefaultCtor => {
                 if first_piece {
                     *self = Self::fresh_default();
@@ -225,11 +249,58 @@ pub trait Est: Clone + Debug + Serialize + DeserializeOwned + Send + 'static {
     fn to_json(&self) -> String {
         serde_json::to_string(self).expect("serialize")
     }
+    /// `s`: JSON text or a blob written by `to_blob` (see medium.rs)
     fn from_json(s: &str) -> Result<Self, String> {
-        serde_json::from_str(s).map_err(|e| e.to_string())
+        crate::medium::decode(s)
+    }
+    /// the state as written to storage medium `m`; falls back to JSON text if the medium cannot carry it
+    fn to_blob(&self, m: u8) -> String {
+        crate::medium::encode(self, m).unwrap_or_else(|_| self.to_json())
     }
     fn debug(&self) -> String {
         format!("{:?}", self)
+    }
+}
+
+/// An iterator that is NOT fused: it yields the items of `inner`, then `None` once, and if it
+/// is polled again after that `None` it yields up to three phantom items before ending for
+/// good (like a record stream cut at separators with `map_while`, or `Receiver::try_iter`).
+/// A consumer that stops at the first `None`, as a `for` loop does, never sees the phantoms.
+/// size_hint is the default (0, None).
+pub struct Unfused<I: Iterator> {
+    inner: I,
+    done: bool,
+    after: u8,
+    phantom: I::Item,
+}
+
+pub static PHANTOM_F64: f64 = 1234.5;
+pub static PHANTOM_PAIR: (f64, f64) = (1234.5, 1.0);
+
+impl<I: Iterator> Unfused<I> {
+    pub fn new(inner: I, phantom: I::Item) -> Self {
+        Unfused { inner, done: false, after: 0, phantom }
+    }
+}
+
+impl<I: Iterator> Iterator for Unfused<I>
+where
+    I::Item: Copy,
+{
+    type Item = I::Item;
+    fn next(&mut self) -> Option<I::Item> {
+        if !self.done {
+            let x = self.inner.next();
+            if x.is_none() {
+                self.done = true;
+            }
+            x
+        } else if self.after < 3 {
+            self.after += 1;
+            Some(self.phantom)
+        } else {
+            None
+        }
     }
 }
 
@@ -281,8 +352,8 @@ macro_rules! scalar_ingest {
         fn collect_val_lazy(items: &[f64]) -> Self {
             if items.len() % 2 == 0 {
                 // size_hint = (0, None)
-                let mut it = items.iter().copied();
-                return std::iter::from_fn(move || it.next()).collect::<$t>();
+                let it = items.iter().copied();
+                return Unfused::new(it, PHANTOM_F64).collect::<$t>();
             }
             items.iter().copied().filter(|_| true).collect::<$t>()
         }
@@ -291,15 +362,15 @@ macro_rules! scalar_ingest {
         }
         fn extend_val_lazy(&mut self, items: &[f64]) {
             if items.len() % 2 == 0 {
-                let mut it = items.iter().copied();
-                return Extend::extend(self, std::iter::from_fn(move || it.next()));
+                let it = items.iter().copied();
+                return Extend::extend(self, Unfused::new(it, PHANTOM_F64));
             }
             Extend::extend(self, items.iter().copied().filter(|_| true))
         }
         fn extend_ref_lazy(&mut self, items: &[f64]) {
             if items.len() % 2 == 0 {
-                let mut it = items.iter();
-                return Extend::extend(self, std::iter::from_fn(move || it.next()));
+                let it = items.iter();
+                return Extend::extend(self, Unfused::new(it, &PHANTOM_F64));
             }
             Extend::extend(self, items.iter().filter(|_| true))
         }
@@ -629,8 +700,8 @@ macro_rules! pair_ingest {
         }
         fn collect_val_lazy(items: &[(f64, f64)]) -> Self {
             if items.len() % 2 == 0 {
-                let mut it = items.iter().copied();
-                return std::iter::from_fn(move || it.next()).collect::<$t>();
+                let it = items.iter().copied();
+                return Unfused::new(it, PHANTOM_PAIR).collect::<$t>();
             }
             items.iter().copied().filter(|_| true).collect::<$t>()
         }
@@ -639,15 +710,15 @@ macro_rules! pair_ingest {
         }
         fn extend_val_lazy(&mut self, items: &[(f64, f64)]) {
             if items.len() % 2 == 0 {
-                let mut it = items.iter().copied();
-                return Extend::extend(self, std::iter::from_fn(move || it.next()));
+                let it = items.iter().copied();
+                return Extend::extend(self, Unfused::new(it, PHANTOM_PAIR));
             }
             Extend::extend(self, items.iter().copied().filter(|_| true))
         }
         fn extend_ref_lazy(&mut self, items: &[(f64, f64)]) {
             if items.len() % 2 == 0 {
-                let mut it = items.iter();
-                return Extend::extend(self, std::iter::from_fn(move || it.next()));
+                let it = items.iter();
+                return Extend::extend(self, Unfused::new(it, &PHANTOM_PAIR));
             }
             Extend::extend(self, items.iter().filter(|_| true))
         }
